@@ -17,6 +17,7 @@ mod eng_store;
 mod eng_twin;
 mod eng_txm;
 mod eng_vec;
+mod eng_vecmt;
 mod fw;
 mod model_graph;
 mod prng;
